@@ -40,8 +40,12 @@ TNext == /\ l <= Len(Trace) /\ l' = l + 1
                                       \* led to the same storage calls with the same results (frame writes only, one failing at least): one
                                       \* condition recurring.  `a` and `b` are the messages the processor tried to log on the two
                                       \* frames; were they to differ, the limiter could never recognise the repetition.
+                                      \* Likewise for two consecutive identical frames of a run of motion whose start is refused
+                                      \* (window closed, disk space missing) once the refusal has been reported (a # <<>>): the
+                                      \* condition still holds, so it is reported again (and the limiter decides what is printed).
             THEN /\ UNCHANGED <<interval, lastMsg, lastTime, has>>
-                 /\ (IF E.a = E.b THEN TRUE ELSE PrintT(<<"VIOL", l, {"C20:recurring-condition-reworded-every-frame"}>>))
+                 /\ (IF E.a = E.b THEN TRUE
+                     ELSE PrintT(<<"VIOL", l, {IF E.b = <<>> THEN "C20:recurring-condition-no-longer-reported" ELSE "C20:recurring-condition-reworded-every-frame"}>>))
             ELSE LET should == ~(has /\ E.msg = lastMsg /\ E.now - lastTime < interval)
                      did    == E.out # ""
                      v == (IF should /\ ~did THEN {"C20:message-lost"} ELSE {})
